@@ -1,7 +1,7 @@
 (* C04 - Sequence constraints return exactly the selected records and columns.
    The server applies the selection clauses, the column projection and the record range through the
    lazy-stream operations of C17; the result is the reference filter. *)
-From PydapV Require Import Base Slices IterData IterDataProofs.
+From PydapV Require Import Base Slices IterData IterDataProofs Projection ProjectionProofs.
 
 Theorem C04_constraint_expression : forall hd rows clauses cols range d,
   NoDup hd -> Forall (ok hd) rows -> incl cols hd ->
@@ -25,3 +25,36 @@ Example C04_ex :
   exists d, apply_ops (fresh hd rows) [OFilter "i"%string RGt (OConst 10); OCols ["t"]%string; OSlice (mkSlice (Some 0) (Some 2) (Some 1))] = Some d
             /\ iter d = [[131]; [133]].
 Proof. cbn zeta. eexists. split; reflexivity. Qed.
+
+(* The hyperslabs of a projection (the loop of apply_projection, model/Projection.v; one sliced axis per variable: a rank-1 array or
+   the record axis of a sequence).  A mention that repeats an earlier (variable, hyperslab) pair changes nothing - whatever stands
+   between and after the two, acceptance and refusal included ... *)
+Theorem C04_repeated_mention_is_noop : forall bounded st pre v s post,
+  In (v, Some s) pre ->
+  run bounded [] st (pre ++ (v, Some s) :: post) = run bounded [] st (pre ++ post).
+Proof. exact repeated_mention_is_noop. Qed.
+Print Assumptions C04_repeated_mention_is_noop.
+
+(* ... so a variable written with ONE hyperslab, however often and wherever in the list (q[1:1:3].c,q[1:1:3].a), holds exactly
+   that hyperslab of its source, and a variable written without any holds all of it *)
+Theorem C04_one_hyperslab_however_often : forall bounded st items fin v s src,
+  plookup v st = Some src -> only_slab v s items -> In (v, Some s) items ->
+  run bounded [] st items = Some fin ->
+  plookup v fin = Some (take_slab s src).
+Proof. exact one_hyperslab_however_often. Qed.
+Print Assumptions C04_one_hyperslab_however_often.
+
+Theorem C04_unsliced_variable_is_whole : forall bounded st items fin v src,
+  plookup v st = Some src -> (forall t, ~ In (v, Some t) items) ->
+  run bounded [] st items = Some fin ->
+  plookup v fin = Some src.
+Proof. exact unsliced_variable_is_whole. Qed.
+Print Assumptions C04_unsliced_variable_is_whole.
+
+Example C04_projection_ex :
+  let st := [("q"%string, [0; 1; 2; 3; 4; 5]); ("x"%string, [0; 1; 2])] in
+  let s := mkSlab 1 4 1 in
+  run (fun v => String.eqb v "x") [] st [("q"%string, Some s); ("x"%string, None); ("q"%string, Some s)]
+    = Some [("q"%string, [1; 2; 3]); ("x"%string, [0; 1; 2])]
+  /\ run (fun v => String.eqb v "x") [] st [("x"%string, Some (mkSlab 3 4 1))] = None.
+Proof. cbn zeta. split; reflexivity. Qed.
